@@ -36,6 +36,8 @@ EXPLANATION = "error-propagation and error-position step lemmas; State.get kerne
 # (query, kind, predecessor text, extra sub-states that are error states)
 FAIL = [
     ("p/boom", "raises", "p", []),
+    ("p/evalexc", "raises", "p", []),
+    ("p/addn-1/boom", "raises", "p/addn-1", []),
     ("p/nosuch", "unknown", "p", []),
     ("p/addn-x", "unconvertible", "p", []),
     ("p/add2", "missing", "p", []),
@@ -48,7 +50,8 @@ OKQ = [("p/addn-5", "p"), ("p/setv-7", "p"), ("p/addn-5/res.json", "p/addn-5"), 
 
 
 def _errinfo(out):
-    """(offset, query) pairs a caller can learn from an error state: error log entries and the exception get() raises"""
+    """-> ((offset, query) of the error LOG entries - the part of the report that survives further steps -,
+           (offset, query) of the exception get() raises or None, whether get() raises)"""
     info = []
     for e in out.metadata.get("log", []):
         if e.get("kind") == "error":
@@ -57,11 +60,10 @@ def _errinfo(out):
     try:
         with quiet():
             out.get()
-        return info, False
+        return info, None, False
     except Exception as ex:
         p = getattr(ex, "position", None)
-        info.append((None if p is None else p.offset, getattr(ex, "query", None)))
-        return info, True
+        return info, (None if p is None else p.offset, getattr(ex, "query", None)), True
 
 
 def ob_error_pred(v: int, pvol: bool, pcaching: bool, pvar: int, with_cache: bool) -> bool:
@@ -84,9 +86,11 @@ def ob_error_pred(v: int, pvol: bool, pcaching: bool, pvar: int, with_cache: boo
         raised = True
     if raised:
         return check(CALLS == [])
-    info, get_raises = _errinfo(out)
+    info, exc, get_raises = _errinfo(out)
     ok = bool(out.is_error) and get_raises and CALLS == []
     ok = ok and cache.get(parse(q).encode()) is None
+    # the report of the original failure (position 1 in the predecessor's text) survives this step
+    ok = ok and (1, ptext) in info and exc == (1, ptext)
     return check(ok)
 
 
@@ -116,12 +120,15 @@ def ob_failing_step(v: int, pvol: bool, pcaching: bool, pvar: int, with_cache: b
     except Exception as ex:
         p = getattr(ex, "position", None)
         ok = p is not None and p.offset == fail_offset and getattr(ex, "query", None) in names_ok
-        ok = ok and (CALLS == [] or (kind == "raises" and CALLS == ["boom"]))
+        ok = ok and (CALLS == [] or (kind == "raises" and len(CALLS) == 1))
         return check(ok and cache.get(pq.encode()) is None, "raised")
-    info, get_raises = _errinfo(out)
+    info, exc, get_raises = _errinfo(out)
     ok = bool(out.is_error) and get_raises
-    ok = ok and (CALLS == ["boom"] if kind == "raises" else CALLS == [])
+    ok = ok and (len(CALLS) == 1 if kind == "raises" else CALLS == [])
+    # the LOG entry (which is what later steps and stored metadata carry) names the query and the offset ...
     ok = ok and any(off == fail_offset and qq in names_ok for off, qq in info)
+    # ... and so does the exception a caller gets
+    ok = ok and exc is not None and exc[0] == fail_offset and exc[1] in names_ok
     ok = ok and cache.get(pq.encode()) is None
     return check(ok, "error-state")
 
@@ -146,7 +153,7 @@ def ob_extra_arg(v: int, s: str) -> bool:
         return check(not convertible and CALLS == [])
     if convertible:
         return check((not out.is_error) and out.data.v == v + expected and CALLS == ["addn"])
-    info, get_raises = _errinfo(out)
+    info, exc, get_raises = _errinfo(out)
     return check(bool(out.is_error) and get_raises and CALLS == [])
 
 
@@ -165,7 +172,7 @@ def ob_missing_resource(with_cache: bool, v: int) -> bool:
             out = ctx.evaluate("-R/missing")
     except Exception:
         return check(True, "raised")
-    info, get_raises = _errinfo(out)
+    info, exc, get_raises = _errinfo(out)
     ok = bool(out.is_error) and get_raises and cache.get("-R/missing") is None
     with quiet():
         ok2 = HContext(NoCache(), {}, store=store).evaluate("-R/present")
